@@ -21,7 +21,7 @@ def plan(tier, seed):
     k = 40 if tier == "quick" else 800
     shards += [{"kind": "variants", "seed": seed, "shard": i, "n": 250} for i in range(k)]
     shards += [{"kind": "corrupt", "seed": seed, "shard": i, "n": 400} for i in range(k)]
-    shards += [{"kind": "cli", "seed": seed, "shard": i, "n": 15} for i in range(4 if tier == "quick" else 80)]
+    shards += [{"kind": "cli", "seed": seed, "shard": i, "n": 15} for i in range(8 if tier == "quick" else 100)]
     return shards
 
 
